@@ -16,7 +16,7 @@ import (
 func init() {
 	register("C11",
 		"equality of two routes' arithmetic when they read the same inputs (constants inside duplicated formulas are compared only for the nine-star pairs, under C16); agreement of routes that are not paired by name or by the explicit pair table.",
-		r11_1, r11_2, r11_3, r11_4, r11_5, r16_2)
+		r11_1, r11_2, r11_3, r11_4, r11_5, r16_2, r11_6)
 }
 
 // ---------- delegation shape ----------
@@ -524,4 +524,9 @@ func r11_5(c *Ctx, r *Report) {
 		r.bad(rule, k, c.pos(sitePos[k]), "an attribute accessor stores to its receiver (memoisation); reached from: "+strings.Join(headList(who, 6), ", "))
 	}
 	r.ok(rule, "accessors of Lunar/LunarTime/LunarYear/LunarMonth/EightChar", "-", fmt.Sprintf("%d exported non-mutator methods, none stores to its receiver", n))
+}
+
+// R11.6: both hour routes (Lunar.computeTime and NewLunarTime) hand the same rendering to the one slot function.
+func r11_6(c *Ctx, r *Report) {
+	likeWithLikeRule(c, r, "R11.6", func(fn *ssa.Function) bool { return fname(fn) == "LunarUtil.GetTimeZhiIndex" }, 2)
 }
